@@ -15,6 +15,7 @@ pub mod c11;
 pub mod c14;
 pub mod c17;
 pub mod c18;
+pub mod c19;
 
 pub struct Property {
     pub id: &'static str,
@@ -34,4 +35,5 @@ pub const ALL: &[Property] = &[
     Property { id: "C14", run: c14::run, replay: c14::replay },
     Property { id: "C17", run: c17::run, replay: c17::replay },
     Property { id: "C18", run: c18::run, replay: c18::replay },
+    Property { id: "C19", run: c19::run, replay: c19::replay },
 ];
